@@ -124,6 +124,7 @@ theorem specEval_word (fuel D : Nat) (env : Env) (w : Bytes) :
         | some n => (chk (Int.ofNat n), env)
         | none => (.err .badNumber, env) := by
   rw [specEval]
+  rfl
 
 theorem specEval_zero (D : Nat) (env : Env) (e : Expr) : specEval 0 D env e = (.err .fuel, env) := by
   rw [specEval]
@@ -152,8 +153,8 @@ theorem specEval_lit {lit : Bytes} {n : Nat} (hl : specNumber lit = some n) {fue
     obtain ⟨a, b⟩ := chk_nat h1 hd
     exact ⟨a, b, h2.symm⟩
 
-theorem specEval_unary_plain (fuel D : Nat) (env : Env) (op : UnOp) (x : Expr)
-    (hop : ¬ (op = .inc ∨ op = .dec)) :
+theorem specEval_unary_plain (fuel D : Nat) (env : Env) (op : UnOp) (x : Expr) :
+    ¬ (op = .inc ∨ op = .dec) →
     specEval (fuel + 1) D env (.unary op false x) =
       andThen (specEval fuel D env x) fun v env1 =>
         match op with
@@ -161,8 +162,10 @@ theorem specEval_unary_plain (fuel D : Nat) (env : Env) (op : UnOp) (x : Expr)
         | .bitNeg => (.ok (-v - 1), env1)
         | .plus => (.ok v, env1)
         | _ => (chk (-v), env1) := by
+  intro hop
   rw [specEval]
   simp only [hop, if_false, Bool.false_eq_true]
+  rfl
 
 theorem litExpr_spec {e' : Expr} {neg : Bool} {n : Nat} (hl : LitExpr e' neg n) {fuel D : Nat}
     {env env' : Env} {r : Res} (h : specEval fuel D env e' = (r, env')) (hd : r.inDomain) :
@@ -218,5 +221,582 @@ theorem litExpr_spec {e' : Expr} {neg : Bool} {n : Nat} (hl : LitExpr e' neg n) 
         | panic =>
           obtain ⟨_, b, _⟩ := specEval_lit hs hx trivial
           cases b
+
+theorem parseText_nil : parseText [] = some none := by decide
+
+/-- Following a chain of names: the specification (recursive evaluation of the text) and the model
+    (`chase` + `atoi`) agree. -/
+theorem chain_lemma {env : Env} : ∀ {d : Nat} {n : Bytes} {neg : Bool} {k : Nat},
+    Reaches env.get d n neg k → validName n = true →
+    ∀ (fuel D hops : Nat) (r : Res) (env' : Env), d + 1 ≤ D → d + 1 ≤ hops →
+      specEval fuel D env (.word n) = (r, env') → r.inDomain →
+      k < 2 ^ 63 ∧ r = .ok (if neg then -(Int.ofNat k) else Int.ofNat k) ∧ env' = env ∧
+        atoi (chase env.get hops n) = (if neg then -(Int.ofNat k) else Int.ofNat k) := by
+  intro d n neg k hr
+  induction hr with
+  | unset n hn =>
+    intro hv fuel D hops r env' hD hh h hd
+    cases fuel with
+    | zero => rw [specEval_zero] at h; cases h; exact absurd hd (by simp [Res.inDomain])
+    | succ f =>
+      rw [specEval_word, if_pos hv, if_pos hn] at h
+      cases h
+      obtain ⟨h', rfl⟩ : ∃ h', hops = h' + 1 := ⟨hops - 1, by omega⟩
+      rw [chase_succ, if_pos hv, if_pos hn, atoi_name hv]
+      exact ⟨by decide, rfl, rfl, rfl⟩
+  | lit n neg k hl =>
+    intro hv fuel D hops r env' hD hh h hd
+    obtain ⟨e', hp, hle⟩ := parseText_intLit hl
+    have hne : env.get n ≠ [] := by
+      intro he; rw [he, parseText_nil] at hp; cases hp
+    cases fuel with
+    | zero => rw [specEval_zero] at h; cases h; exact absurd hd (by simp [Res.inDomain])
+    | succ f =>
+      obtain ⟨D', rfl⟩ : ∃ D', D = D' + 1 := ⟨D - 1, by omega⟩
+      obtain ⟨h', rfl⟩ : ∃ h', hops = h' + 1 := ⟨hops - 1, by omega⟩
+      rw [specEval_word, if_pos hv, if_neg hne, hp] at h
+      simp only [] at h
+      obtain ⟨a, b, c⟩ := litExpr_spec hle h hd
+      rw [chase_succ, if_pos hv, if_neg hne, chase_not_name _ _ _ (intLit_not_name hl),
+        atoi_intLit hl a]
+      exact ⟨a, b, c, rfl⟩
+  | step d n neg k hvn _ ih =>
+    intro hv fuel D hops r env' hD hh h hd
+    have hne : env.get n ≠ [] := by
+      intro he; rw [he] at hvn; simp [validName] at hvn
+    cases fuel with
+    | zero => rw [specEval_zero] at h; cases h; exact absurd hd (by simp [Res.inDomain])
+    | succ f =>
+      obtain ⟨D', rfl⟩ : ∃ D', D = D' + 1 := ⟨D - 1, by omega⟩
+      obtain ⟨h', rfl⟩ : ∃ h', hops = h' + 1 := ⟨hops - 1, by omega⟩
+      rw [specEval_word, if_pos hv, if_neg hne, parseText_name hvn] at h
+      simp only [] at h
+      obtain ⟨a, b, c, e⟩ := ih hvn f D' h' r env' (by omega) (by omega) h hd
+      rw [chase_succ, if_pos hv, if_neg hne]
+      exact ⟨a, b, c, e⟩
+
+/-! ### unfolding equations -/
+
+theorem specEval_paren (fuel D : Nat) (env : Env) (x : Expr) :
+    specEval (fuel + 1) D env (.paren x) = specEval fuel D env x := by
+  rw [specEval]
+
+theorem specEval_incdec (fuel D : Nat) (env : Env) (op : UnOp) (post : Bool) (n : Bytes) :
+    (op = .inc ∨ op = .dec) → validName n = true →
+    specEval (fuel + 1) D env (.unary op post (.word n)) =
+      andThen (specEval fuel D env (.word n)) fun old env1 =>
+        if inI64 (if op = .inc then old + 1 else old - 1) then
+          andThen (setVar env1 n (if op = .inc then old + 1 else old - 1)) fun _ env2 =>
+            (.ok (if post then old else (if op = .inc then old + 1 else old - 1)), env2)
+        else (.err .outOfDomain, env1) := by
+  intro hop hv
+  rw [specEval]
+  simp only [hop, if_true, wordOf, hv]
+
+theorem specEval_assgn (fuel D : Nat) (env : Env) (n : Bytes) (y : Expr) :
+    validName n = true →
+    specEval (fuel + 1) D env (.binary .assgn (.word n) y) =
+      andThen (specEval fuel D env y) fun v env1 => setVar env1 n v := by
+  intro hv
+  rw [specEval]
+  simp [isAssign, wordOf, hv, assignOp]
+
+theorem specEval_opassign (fuel D : Nat) (env : Env) (op aop : BinOp) (n : Bytes) (y : Expr) :
+    assignOp op = some aop → validName n = true →
+    specEval (fuel + 1) D env (.binary op (.word n) y) =
+      andThen (specEval fuel D env (.word n)) fun cur env1 =>
+        andThen (specEval fuel D env1 y) fun arg env2 =>
+          match specBin aop cur arg with
+          | .ok v => setVar env2 n v
+          | r => (r, env2) := by
+  intro hop hv
+  rw [specEval]
+  have : isAssign op = true := (assignOp_plain hop).1
+  simp only [this, if_true, wordOf, hv, hop]
+  rfl
+
+theorem specEval_tern (fuel D : Nat) (env : Env) (x t f : Expr) :
+    specEval (fuel + 1) D env (.binary .ternQuest x (.binary .ternColon t f)) =
+      andThen (specEval fuel D env x) fun c env1 =>
+        if c ≠ 0 then specEval fuel D env1 t else specEval fuel D env1 f := by
+  rw [specEval]
+  simp [isAssign, assignOp, colonParts]
+
+theorem specEval_logic (fuel D : Nat) (env : Env) (op : BinOp) (x y : Expr) :
+    (op = .andL ∨ op = .orL) →
+    specEval (fuel + 1) D env (.binary op x y) =
+      andThen (specEval fuel D env x) fun l env1 =>
+        if op = .andL ∧ l = 0 then (.ok 0, env1)
+        else if op = .orL ∧ l ≠ 0 then (.ok 1, env1)
+        else andThen (specEval fuel D env1 y) fun r env2 => (.ok (oneIf (r != 0)), env2) := by
+  intro hop
+  rw [specEval]
+  rcases hop with rfl | rfl <;> simp [isAssign, assignOp]
+
+theorem plainBin_facts {op : BinOp} (h : plainBin op = true) :
+    isAssign op = false ∧ op ≠ .ternQuest ∧ ¬ (op = .andL ∨ op = .orL) := by
+  cases op <;> simp [plainBin] at h <;> decide
+
+theorem specEval_plain (fuel D : Nat) (env : Env) (op : BinOp) (x y : Expr) :
+    plainBin op = true →
+    specEval (fuel + 1) D env (.binary op x y) =
+      andThen (specEval fuel D env x) fun l env1 =>
+        andThen (specEval fuel D env1 y) fun r env2 => (specBin op l r, env2) := by
+  intro hop
+  obtain ⟨h1, h2, h3⟩ := plainBin_facts hop
+  rw [specEval]
+  simp only [h1, Bool.false_eq_true, if_false, h2, h3]
+
+theorem evalArith_incdec (env : Env) (op : UnOp) (post : Bool) (n : Bytes) :
+    (op = .inc ∨ op = .dec) →
+    evalArith env (.unary op post (.word n)) =
+      andThen (setVar env n (if op = .inc then wrap64 (atoi (env.get n) + 1)
+          else wrap64 (atoi (env.get n) - 1))) fun _ env' =>
+        (.ok (if post then atoi (env.get n) else
+          (if op = .inc then wrap64 (atoi (env.get n) + 1) else wrap64 (atoi (env.get n) - 1))), env') := by
+  intro hop
+  rw [evalArith]
+  simp only [hop, if_true, wordOf]
+
+theorem evalArith_unary_plain (env : Env) (op : UnOp) (post : Bool) (x : Expr) :
+    ¬ (op = .inc ∨ op = .dec) →
+    evalArith env (.unary op post x) =
+      andThen (evalArith env x) fun v env' =>
+        match op with
+        | .not => (.ok (oneIf (v == 0)), env')
+        | .bitNeg => (.ok (-v - 1), env')
+        | .plus => (.ok v, env')
+        | .minus => (.ok (wrap64 (-v)), env')
+        | _ => (.err .unsupUnary, env') := by
+  intro hop
+  rw [evalArith]
+  simp only [hop, if_false]
+  rfl
+
+theorem evalArith_assgn (env : Env) (n : Bytes) (y : Expr) :
+    evalArith env (.binary .assgn (.word n) y) =
+      andThen (evalArith env y) fun arg env' => setVar env' n arg := by
+  rw [evalArith]
+  simp [isAssign, wordOf, assignOp]
+
+theorem evalArith_opassign (env : Env) (op aop : BinOp) (n : Bytes) (y : Expr) :
+    assignOp op = some aop →
+    evalArith env (.binary op (.word n) y) =
+      andThen (evalArith env y) fun arg env' =>
+        match binArit aop (atoi (env.get n)) arg with
+        | .ok v => setVar env' n v
+        | e => (e, env') := by
+  intro hop
+  rw [evalArith]
+  have : isAssign op = true := (assignOp_plain hop).1
+  simp only [this, if_true, wordOf, hop]
+  rfl
+
+theorem evalArith_tern (env : Env) (x t f : Expr) :
+    evalArith env (.binary .ternQuest x (.binary .ternColon t f)) =
+      andThen (evalArith env x) fun c env1 =>
+        if c ≠ 0 then evalArith env1 t else evalArith env1 f := by
+  rw [evalArith]
+  simp [isAssign, assignOp, evalTernBranch]
+
+theorem evalArith_logic (env : Env) (op : BinOp) (x y : Expr) :
+    (op = .andL ∨ op = .orL) →
+    evalArith env (.binary op x y) =
+      andThen (evalArith env x) fun l env1 =>
+        if op = .andL ∧ l = 0 then (.ok 0, env1)
+        else if op = .orL ∧ l ≠ 0 then (.ok 1, env1)
+        else andThen (evalArith env1 y) fun r env2 => (.ok (oneIf (r != 0)), env2) := by
+  intro hop
+  rw [evalArith]
+  rcases hop with rfl | rfl <;> simp [isAssign, assignOp]
+
+theorem evalArith_plain (env : Env) (op : BinOp) (x y : Expr) :
+    plainBin op = true →
+    evalArith env (.binary op x y) =
+      andThen (evalArith env x) fun l env1 =>
+        andThen (evalArith env1 y) fun r env2 => (binArit op l r, env2) := by
+  intro hop
+  obtain ⟨h1, h2, h3⟩ := plainBin_facts hop
+  rw [evalArith]
+  simp only [h1, Bool.false_eq_true, if_false, h2, h3]
+
+/-! ### the main induction -/
+
+/-- what the induction establishes for one evaluation -/
+def Good (g : Bytes → Bytes) (pm : Res × Env) (r : Res) (env' : Env) : Prop :=
+  pm = (r, env') ∧ Stable g env'.get ∧ (∀ w, r = .ok w → inI64 w = true)
+
+theorem step {g : Bytes → Bytes} {ps pm : Res × Env} {fs fm : Int → Env → Res × Env} {r : Res}
+    {env' : Env} (hs : andThen ps fs = (r, env')) (hd : r.inDomain)
+    (hsub : ∀ r1 e1, ps = (r1, e1) → r1.inDomain → Good g pm r1 e1)
+    (hcont : ∀ v e1, ps = (.ok v, e1) → inI64 v = true → Stable g e1.get → fs v e1 = (r, env') →
+      Good g (fm v e1) r env') :
+    Good g (andThen pm fm) r env' := by
+  obtain ⟨r1, e1⟩ := ps
+  cases r1 with
+  | ok v =>
+    obtain ⟨h1, h2, h3⟩ := hsub (.ok v) e1 rfl trivial
+    rw [h1, andThen_ok]
+    exact hcont v e1 rfl (h3 v rfl) h2 (by simpa using hs)
+  | err er =>
+    simp only [andThen_err] at hs
+    have h1' := congrArg Prod.fst hs
+    have h2' := congrArg Prod.snd hs
+    simp only at h1' h2'
+    subst h1' h2'
+    obtain ⟨h1, h2, _⟩ := hsub (.err er) e1 rfl hd
+    rw [h1, andThen_err]
+    exact ⟨rfl, h2, fun w hw => by cases hw⟩
+  | panic =>
+    simp only [andThen_panic] at hs
+    have h1' := congrArg Prod.fst hs
+    have h2' := congrArg Prod.snd hs
+    simp only at h1' h2'
+    subst h1' h2'
+    obtain ⟨h1, h2, _⟩ := hsub .panic e1 rfl hd
+    rw [h1, andThen_panic]
+    exact ⟨rfl, h2, fun w hw => by cases hw⟩
+
+theorem good_setVar {g : Bytes → Bytes} {env1 env' : Env} {n : Bytes} {v : Int} {r : Res}
+    (hst : Stable g env1.get) (hv : inI64 v = true) (h : setVar env1 n v = (r, env')) :
+    Good g (setVar env1 n v) r env' :=
+  ⟨h, hst.trans (setVar_stable h), fun w hw => by rw [setVar_ok h w hw]; exact hv⟩
+
+theorem inI64_sval {neg : Bool} {k : Nat} (hk : k < 2 ^ 63) :
+    inI64 (if neg then -(Int.ofNat k) else Int.ofNat k) = true := by
+  rw [inI64_iff, Int.ofNat_eq_natCast]
+  cases neg <;> simp <;> omega
+
+theorem isNameWord_elim' {x : Expr} (h : isNameWord x = true) : ∃ n, x = .word n ∧ validName n = true := by
+  cases x <;> simp [isNameWord] at h
+  exact ⟨_, rfl, h⟩
+
+/-- reading an `op=`/`++`/`--` target: specification and `atoi` agree -/
+theorem lval_read {env : Env} {n : Bytes} (hv : validName n = true)
+    (hl : env.get n = [] ∨ ∃ neg k, IntLit (env.get n) neg k)
+    {fuel D : Nat} (hD : 1 ≤ D) {r1 : Res} {e1 : Env}
+    (h : specEval fuel D env (.word n) = (r1, e1)) (hd : r1.inDomain) :
+    r1 = .ok (atoi (env.get n)) ∧ e1 = env ∧ inI64 (atoi (env.get n)) = true := by
+  rcases hl with he | ⟨neg, k, hl⟩
+  · obtain ⟨a, b, c, _⟩ := chain_lemma (Reaches.unset n he) hv fuel D 1 r1 e1 (by omega) (by omega) h hd
+    rw [he, atoi_nil]
+    exact ⟨by simpa using b, c, by decide⟩
+  · obtain ⟨a, b, c, _⟩ := chain_lemma (Reaches.lit n neg k hl) hv fuel D 1 r1 e1 (by omega) (by omega) h hd
+    rw [atoi_intLit hl a]
+    exact ⟨b, c, inI64_sval a⟩
+
+theorem specBin_plain_ne {op : BinOp} (hop : plainBin op = true) (x y : Int) :
+    specBin op x y ≠ .err .syntaxErr ∧ specBin op x y ≠ .panic := by
+  cases op <;> simp [plainBin] at hop <;> simp only [specBin, chk, specPow] <;>
+    (constructor <;> repeat' split) <;> simp
+
+theorem assignOp_plainBin {op aop : BinOp} (h : assignOp op = some aop) : plainBin aop = true := by
+  cases op <;> simp [assignOp] at h <;> subst h <;> rfl
+
+theorem good_binArit {g : Bytes → Bytes} {op : BinOp} {l rr : Int} {e2 env' : Env} {r : Res}
+    (hop : plainBin op = true) (hl : inI64 l = true) (hrr : inI64 rr = true)
+    (hst : Stable g e2.get) (hf : (specBin op l rr, e2) = (r, env')) (hd : r.inDomain) :
+    Good g (binArit op l rr, e2) r env' := by
+  have h1 := congrArg Prod.fst hf
+  have h2 := congrArg Prod.snd hf
+  simp only at h1 h2
+  subst h2
+  have hb := binArit_eq_spec hrr h1 hd (by rw [← h1]; exact (specBin_plain_ne hop l rr).1)
+  refine ⟨by rw [hb], hst, fun w hw => ?_⟩
+  rw [hw] at h1
+  exact specBin_inI64 hl hrr h1
+
+theorem pair_eq {r1 r : Res} {e1 env' : Env} (h : (r1, e1) = (r, env')) : r1 = r ∧ e1 = env' := by
+  cases h; exact ⟨rfl, rfl⟩
+
+theorem eval_main (D : Nat) (hD : 98 ≤ D) : ∀ (fuel : Nat) (env : Env) (e : Expr) (r : Res) (env' : Env),
+    WF e = true → EnvOK env → LitsOK e → LvalsOK env.get e →
+    specEval fuel D env e = (r, env') → r.inDomain →
+    Good env.get (evalArith env e) r env'
+  | 0, env, e, r, env', _, _, _, _, h, hd => by
+    rw [specEval_zero] at h; cases h; exact absurd hd (by simp [Res.inDomain])
+  | fuel + 1, env, e, r, env', hwf, henv, hlit, hlv, h, hd => by
+    have IH := eval_main D hD fuel
+    have IH' : ∀ (e1 : Env) (x : Expr) (r1 : Res) (e2 : Env), Stable env.get e1.get →
+        WF x = true → LitsOK x → LvalsOK env.get x → specEval fuel D e1 x = (r1, e2) →
+        r1.inDomain → Good env.get (evalArith e1 x) r1 e2 := by
+      intro e1 x r1 e2 hst hw hl hv hp hd1
+      obtain ⟨a, b, c⟩ := IH e1 x r1 e2 hw (EnvOK_stable henv hst) hl (LvalsOK_stable hst x hv) hp hd1
+      exact ⟨a, hst.trans b, c⟩
+    cases e with
+    | word w =>
+      by_cases hv : validName w = true
+      · obtain ⟨d, neg, k, hd97, hr⟩ := henv w hv
+        obtain ⟨a, b, c, e⟩ := chain_lemma hr hv (fuel + 1) D 99 r env' (by omega) (by omega) h hd
+        rw [evalArith_word, e]
+        subst b c
+        exact ⟨rfl, Stable.refl _, fun w hw => by cases hw; exact inI64_sval a⟩
+      · rcases hlit with hl | ⟨n, hn⟩
+        · exact absurd hl hv
+        · obtain ⟨a, b, c⟩ := specEval_lit hn h hd
+          rw [evalArith_word, chase_not_name _ _ _ (by simpa using hv), atoi_lit hn a]
+          subst b c
+          refine ⟨rfl, Stable.refl _, fun w hw => ?_⟩
+          cases hw
+          exact inI64_sval (neg := false) a
+    | paren x =>
+      rw [specEval_paren] at h
+      rw [evalArith]
+      exact IH env x r env' (by simpa [WF] using hwf) henv hlit hlv h hd
+    | unary op post x =>
+      by_cases hinc : op = .inc ∨ op = .dec
+      · simp only [WF, hinc, if_true] at hwf
+        obtain ⟨n, rfl, hvn⟩ := isNameWord_elim' hwf
+        simp only [LvalsOK, hinc, if_true, wordOf] at hlv
+        rw [specEval_incdec _ _ _ _ _ _ hinc hvn] at h
+        rw [evalArith_incdec _ _ _ _ hinc]
+        cases hps : specEval fuel D env (.word n) with
+        | mk r1 e1 =>
+          rw [hps] at h
+          cases r1 with
+          | ok old =>
+            obtain ⟨b, c, i⟩ := lval_read hvn hlv (by omega) hps trivial
+            cases b
+            subst c
+            simp only [andThen_ok] at h
+            have hw : (if op = UnOp.inc then wrap64 (atoi (e1.get n) + 1)
+                else wrap64 (atoi (e1.get n) - 1)) =
+                wrap64 (if op = UnOp.inc then atoi (e1.get n) + 1 else atoi (e1.get n) - 1) := by
+              split <;> rfl
+            rw [hw]
+            generalize (if op = UnOp.inc then atoi (e1.get n) + 1 else atoi (e1.get n) - 1) = val at h ⊢
+            by_cases hval : inI64 val = true
+            · rw [if_pos hval] at h
+              rw [wrap64_eq hval]
+              obtain ⟨r2, e2, hsv⟩ : ∃ r2 e2, setVar e1 n val = (r2, e2) := ⟨_, _, rfl⟩
+              · have hst := setVar_stable hsv
+                rw [hsv] at h ⊢
+                cases r2 with
+                | ok v2 =>
+                  simp only [andThen_ok] at h ⊢
+                  obtain ⟨a, b⟩ := pair_eq h
+                  subst a b
+                  refine ⟨rfl, hst, fun w hw2 => ?_⟩
+                  cases hw2
+                  cases post
+                  · simpa using hval
+                  · simpa using i
+                | err er =>
+                  simp only [andThen_err] at h ⊢
+                  obtain ⟨a, b⟩ := pair_eq h
+                  subst a b
+                  exact ⟨rfl, hst, fun w hw2 => by cases hw2⟩
+                | panic =>
+                  simp only [andThen_panic] at h ⊢
+                  obtain ⟨a, b⟩ := pair_eq h
+                  subst a b
+                  exact ⟨rfl, hst, fun w hw2 => by cases hw2⟩
+            · rw [if_neg hval] at h
+              have := (pair_eq h).1
+              rw [← this] at hd
+              exact absurd hd (by simp [Res.inDomain])
+          | err er =>
+            simp only [andThen_err] at h
+            have := (pair_eq h).1
+            rw [← this] at hd
+            obtain ⟨b, _, _⟩ := lval_read hvn hlv (by omega) hps hd
+            cases b
+          | panic =>
+            obtain ⟨b, _, _⟩ := lval_read hvn hlv (by omega) hps trivial
+            cases b
+      · simp only [WF, hinc, if_false, Bool.and_eq_true, Bool.not_eq_true'] at hwf
+        obtain ⟨hpost, hwx⟩ := hwf
+        subst hpost
+        simp only [LvalsOK, hinc, if_false] at hlv
+        rw [specEval_unary_plain _ _ _ _ _ hinc] at h
+        rw [evalArith_unary_plain _ _ _ _ hinc]
+        refine step h hd (fun r1 e1 hp hd1 => IH env x r1 e1 hwx henv hlit hlv hp hd1) ?_
+        intro v e1 hp hv hst hf
+        cases op with
+        | inc => exact absurd (Or.inl rfl) hinc
+        | dec => exact absurd (Or.inr rfl) hinc
+        | not =>
+          simp only [] at hf ⊢
+          obtain ⟨a, b⟩ := pair_eq hf
+          subst a b
+          exact ⟨rfl, hst, fun w hw => by cases hw; exact oneIf_inI64 _⟩
+        | bitNeg =>
+          simp only [] at hf ⊢
+          obtain ⟨a, b⟩ := pair_eq hf
+          subst a b
+          refine ⟨rfl, hst, fun w hw => ?_⟩
+          cases hw
+          rw [inI64_iff] at hv ⊢
+          omega
+        | plus =>
+          simp only [] at hf ⊢
+          obtain ⟨a, b⟩ := pair_eq hf
+          subst a b
+          exact ⟨rfl, hst, fun w hw => by cases hw; exact hv⟩
+        | minus =>
+          simp only [] at hf ⊢
+          obtain ⟨a, b⟩ := pair_eq hf
+          subst b
+          obtain ⟨hi, hr⟩ := chk_ok a hd
+          subst hr
+          rw [wrap64_eq hi]
+          exact ⟨rfl, hst, fun w hw => by cases hw; exact hi⟩
+    | binary op x y =>
+      have hlitx : LitsOK x := hlit.1
+      have hlity : LitsOK y := hlit.2
+      have hlvy : LvalsOK env.get y := hlv.2
+      by_cases hass : op = .assgn ∨ (assignOp op).isSome = true
+      · simp only [WF, hass, if_true, Bool.and_eq_true] at hwf
+        obtain ⟨n, rfl, hvn⟩ := isNameWord_elim' hwf.1
+        cases hop : assignOp op with
+        | none =>
+          have hopa : op = .assgn := by
+            rcases hass with h1 | h1
+            · exact h1
+            · rw [hop] at h1; cases h1
+          subst hopa
+          rw [specEval_assgn _ _ _ _ _ hvn] at h
+          rw [evalArith_assgn]
+          refine step h hd (fun r1 e1 hp hd1 => IH env y r1 e1 hwf.2 henv hlity hlvy hp hd1) ?_
+          intro v e1 hp hv hst hf
+          exact good_setVar hst hv hf
+        | some aop =>
+          have hlvn : env.get n = [] ∨ ∃ neg k, IntLit (env.get n) neg k := by
+            have := hlv.1
+            simp only [hop, Option.isSome_some, if_true, wordOf] at this
+            exact this
+          have hpl := assignOp_plainBin hop
+          rw [specEval_opassign _ _ _ _ _ _ _ hop hvn] at h
+          rw [evalArith_opassign _ _ _ _ _ hop]
+          obtain ⟨r1, e1, hps⟩ : ∃ r1 e1, specEval fuel D env (.word n) = (r1, e1) := ⟨_, _, rfl⟩
+          rw [hps] at h
+          cases r1 with
+          | ok cur =>
+            obtain ⟨b, c, i⟩ := lval_read hvn hlvn (by omega) hps trivial
+            cases b
+            subst c
+            simp only [andThen_ok] at h
+            refine step h hd (fun r1 e2 hp hd1 => IH e1 y r1 e2 hwf.2 henv hlity hlvy hp hd1) ?_
+            intro arg e2 hp harg hst hf
+            obtain ⟨sb, hsb⟩ : ∃ sb, specBin aop (atoi (e1.get n)) arg = sb := ⟨_, rfl⟩
+            rw [hsb] at hf
+            cases sb with
+            | ok v =>
+              simp only [] at hf
+              rw [binArit_eq_spec harg hsb trivial (by simp)]
+              exact good_setVar hst (specBin_inI64 i harg hsb) hf
+            | err er =>
+              simp only [] at hf
+              obtain ⟨a, b⟩ := pair_eq hf
+              subst a b
+              rw [binArit_eq_spec harg hsb hd (by rw [← hsb]; exact (specBin_plain_ne hpl _ _).1)]
+              exact ⟨rfl, hst, fun w hw => by cases hw⟩
+            | panic => exact absurd hsb (specBin_plain_ne hpl _ _).2
+          | err er =>
+            simp only [andThen_err] at h
+            have := (pair_eq h).1
+            rw [← this] at hd
+            obtain ⟨b, _, _⟩ := lval_read hvn hlvn (by omega) hps hd
+            cases b
+          | panic =>
+            obtain ⟨b, _, _⟩ := lval_read hvn hlvn (by omega) hps trivial
+            cases b
+      · have hlvx : LvalsOK env.get x := by
+          have := hlv.1
+          have hn : ¬ ((assignOp op).isSome = true) := fun h1 => hass (Or.inr h1)
+          simp only [hn, if_false] at this
+          exact this
+        simp only [WF, hass, if_false] at hwf
+        by_cases ht : op = .ternQuest
+        · subst ht
+          simp only [if_true, Bool.and_eq_true] at hwf
+          obtain ⟨hwx, hwc⟩ := hwf
+          cases y with
+          | word _ => simp [WFColon] at hwc
+          | paren _ => simp [WFColon] at hwc
+          | unary _ _ _ => simp [WFColon] at hwc
+          | binary op2 t f =>
+            simp only [WFColon, Bool.and_eq_true, beq_iff_eq] at hwc
+            obtain ⟨⟨hop2, hwt⟩, hwff⟩ := hwc
+            subst hop2
+            have hlvt : LvalsOK env.get t := hlvy.1
+            have hlvf : LvalsOK env.get f := hlvy.2
+            rw [specEval_tern] at h
+            rw [evalArith_tern]
+            refine step h hd (fun r1 e1 hp hd1 => IH env x r1 e1 hwx henv hlitx hlvx hp hd1) ?_
+            intro c e1 hp hc hst hf
+            by_cases hc0 : c ≠ 0
+            · rw [if_pos hc0] at hf ⊢
+              exact IH' e1 t r env' hst hwt hlity.1 hlvt hf hd
+            · rw [if_neg hc0] at hf ⊢
+              exact IH' e1 f r env' hst hwff hlity.2 hlvf hf hd
+        · simp only [ht, if_false] at hwf
+          by_cases hl : op = .andL ∨ op = .orL
+          · simp only [hl, if_true, Bool.and_eq_true] at hwf
+            rw [specEval_logic _ _ _ _ _ _ hl] at h
+            rw [evalArith_logic _ _ _ _ hl]
+            refine step h hd (fun r1 e1 hp hd1 => IH env x r1 e1 hwf.1 henv hlitx hlvx hp hd1) ?_
+            intro l e1 hp hlv1 hst hf
+            by_cases c1 : op = .andL ∧ l = 0
+            · rw [if_pos c1] at hf ⊢
+              obtain ⟨a, b⟩ := pair_eq hf
+              subst a b
+              exact ⟨rfl, hst, fun w hw => by cases hw; decide⟩
+            · rw [if_neg c1] at hf ⊢
+              by_cases c2 : op = .orL ∧ l ≠ 0
+              · rw [if_pos c2] at hf ⊢
+                obtain ⟨a, b⟩ := pair_eq hf
+                subst a b
+                exact ⟨rfl, hst, fun w hw => by cases hw; decide⟩
+              · rw [if_neg c2] at hf ⊢
+                refine step hf hd (fun r1 e2 hp2 hd1 => IH' e1 y r1 e2 hst hwf.2 hlity hlvy hp2 hd1) ?_
+                intro rr e2 hp2 hrr hst2 hf2
+                obtain ⟨a, b⟩ := pair_eq hf2
+                subst a b
+                exact ⟨rfl, hst2, fun w hw => by cases hw; exact oneIf_inI64 _⟩
+          · simp only [hl, if_false, Bool.and_eq_true] at hwf
+            obtain ⟨⟨hpl, hwx⟩, hwy⟩ := hwf
+            rw [specEval_plain _ _ _ _ _ _ hpl] at h
+            rw [evalArith_plain _ _ _ _ hpl]
+            refine step h hd (fun r1 e1 hp hd1 => IH env x r1 e1 hwx henv hlitx hlvx hp hd1) ?_
+            intro l e1 hp hl1 hst hf
+            refine step hf hd (fun r1 e2 hp2 hd1 => IH' e1 y r1 e2 hst hwy hlity hlvy hp2 hd1) ?_
+            intro rr e2 hp2 hrr hst2 hf2
+            exact good_binArit hpl hl1 hrr hst2 hf2 hd
+
+theorem eval_eq_spec_core (fuel : Nat) (env : Env) (e : Expr) (r : Res) (env' : Env)
+    (hwf : WF e = true) (henv : EnvOK env) (hlit : LitsOK e) (hlv : LvalsOK env.get e)
+    (h : specEval fuel bashMaxDepth env e = (r, env')) (hd : r.inDomain) :
+    evalArith env e = (r, env') :=
+  (eval_main bashMaxDepth (by decide) fuel env e r env' hwf henv hlit hlv h hd).1
+
+/-- On the same domain every value fits int64 (no wrap-around is ever observed). -/
+theorem eval_inI64_core (fuel : Nat) (env : Env) (e : Expr) (v : Int) (env' : Env)
+    (hwf : WF e = true) (henv : EnvOK env) (hlit : LitsOK e) (hlv : LvalsOK env.get e)
+    (h : specEval fuel bashMaxDepth env e = (.ok v, env')) : inI64 v = true :=
+  (eval_main bashMaxDepth (by decide) fuel env e _ env' hwf henv hlit hlv h trivial).2.2 v rfl
+
+theorem status_arithCmd_eq_spec_core (fuel : Nat) (env : Env) (e : Expr)
+    (hwf : WF e = true) (henv : EnvOK env) (hlit : LitsOK e) (hlv : LvalsOK env.get e)
+    (hd : (specEval fuel bashMaxDepth env e).1.inDomain) :
+    arithCmdStatus env e = specArithCmdStatus fuel env e := by
+  obtain ⟨r, env', hs⟩ : ∃ r env', specEval fuel bashMaxDepth env e = (r, env') := ⟨_, _, rfl⟩
+  rw [hs] at hd
+  have hm := eval_eq_spec_core fuel env e r env' hwf henv hlit hlv hs hd
+  unfold arithCmdStatus runnerArithm specArithCmdStatus
+  rw [hm, hs]
+  cases r <;> rfl
+
+/-- `x=x`: the specification runs into bash's recursion limit whatever the fuel. -/
+theorem cycle_recursion_gen (env : Env) (hx : env.get [120] = [120]) : ∀ (D fuel : Nat), D < fuel →
+    specEval fuel D env (.word [120]) = (.err .recursion, env)
+  | D, 0, h => by omega
+  | 0, fuel + 1, _ => by
+    rw [specEval_word, if_pos (by decide), hx, if_neg (by decide),
+      show parseText [120] = some (some (.word [120])) from by decide]
+  | D + 1, fuel + 1, h => by
+    rw [specEval_word, if_pos (by decide), hx, if_neg (by decide),
+      show parseText [120] = some (some (.word [120])) from by decide]
+    exact cycle_recursion_gen env hx D fuel (by omega)
 
 end ShVerif.C20
